@@ -455,6 +455,58 @@ var decodeTexts = []string{`null`, `true`, `1`, `-1.5`, `1e3`, `300`, `1.0`, `"s
 	`{"x":1,"A":2,"a":3,"B":null}`, `{"x":"1","A":"2"}`, `{"A":{"A":"in"},"c":true}`, `{"10":1,"-2":null,"b<":2}`, `{"a":[1],"b":{"c":null}}`, `[[1],[2,3]]`, `12345678901234567890`, `{"a":1,"b":2,"c":"y","z":true,"A2":"t"}`, `{"b":"wrong type","a":5}`, "{\"c\u007fd\":5,\"C_D\":6}", `{"c\u007fd":7}`, `{"x":7,"y":null,"z":8,"A":null}`,
 	`{"v":{"n<":5},"p":[1],"pv":"str","t":"txt","tp":"p","m":{"k":1},"i":{"a":1.50},"s":[{},1],"mm":{"q":[2],"z":null}}`, `"plain text"`, `[7 ,8]`}
 
+// numberBoundaryTexts: for every numeric kind of the type domain the literals at min-1, min, max, max+1,
+// the float32 / float64 overflow, underflow and rounding-tie points (a literal closer to a float32 tie than a
+// float64 can resolve: parsing at 64 bits and narrowing rounds twice), exponent spellings - bare, quoted (the
+// ,string option), in an array, and as the members a struct field / map entry of the domain would read.
+var numberBoundaryTextsCache []string
+
+func numberBoundaryTexts() []string {
+	if numberBoundaryTextsCache != nil {
+		return numberBoundaryTextsCache
+	}
+	lits := []string{"127", "128", "-128", "-129", "255", "256", "65535", "65536", "-1", "2147483647", "2147483648", "4294967296",
+		"9223372036854775807", "9223372036854775808", "-9223372036854775808", "-9223372036854775809", "18446744073709551615", "18446744073709551616",
+		"3.4028235e+38", "3.4028234663852886e+38", "3.4028235677973366e+38", "3.4028236e+38", "3.5e38", "1e-45", "1e-46", "7e-46",
+		"1.00000005960464477539062500001", "1.000000059604644775390625", "16777217.0000000000000001", "16777217", "16777216.999999999",
+		"1.7976931348623157e308", "1.7976931348623159e308", "1e309", "4.9e-324", "2e-324", "2.4703282292062328e-324",
+		"9007199254740993", "0.1e1", "1E2", "1.0e+2", "-0.0", "-0", "1e-7", "123456789012345678901234567890"}
+	var out []string
+	for _, l := range lits {
+		out = append(out, l, `"`+l+`"`, `[`+l+`]`, `{"A":`+l+`}`, `{"A":"`+l+`"}`, `{"x":`+l+`,"b<":`+l+`}`, `{"10":`+l+`}`)
+	}
+	numberBoundaryTextsCache = out
+	return out
+}
+
+// pointerChains: **T and ***T over the primitive kinds (the ,string option looks through ONE pointer only),
+// nil at every level of the chain and fully set.
+func pointerChains(base []typeSpec) []typeSpec {
+	var out []typeSpec
+	for _, b := range base {
+		switch b.t.Kind() {
+		case reflect.Bool, reflect.Int, reflect.Int8, reflect.Uint16, reflect.Float32, reflect.Float64, reflect.String:
+		default:
+			continue
+		}
+		cur := typeSpec{b.t, first(b.vals, 2)}
+		for level := 0; level < 3; level++ {
+			pt := reflect.PtrTo(cur.t)
+			pv := []reflect.Value{reflect.Zero(pt)}
+			for _, x := range cur.vals {
+				p := reflect.New(cur.t)
+				p.Elem().Set(x)
+				pv = append(pv, p)
+			}
+			cur = typeSpec{pt, first(pv, 4)}
+			if level >= 1 {
+				out = append(out, cur)
+			}
+		}
+	}
+	return out
+}
+
 // norm turns a decoded Go value into a comparable text, unifying the two Number types.
 func norm(v reflect.Value, sb *strings.Builder, depth int) {
 	if depth > 12 {
@@ -717,6 +769,9 @@ func (c *codecRun) typeList() []typeSpec {
 	all = append(all, d2...)
 	all = append(all, embeddedTypes()...)
 	all = append(all, methodTypes()...)
+	chains := pointerChains(base)
+	all = append(all, chains...)
+	all = append(all, structsOver(chains, len(chains))...)
 	if c.tier == "thorough" {
 		all = append(all, structsOver(d1, len(d1))...)
 		d3sel := []typeSpec{}
@@ -783,6 +838,14 @@ func (c *codecRun) partValues() {
 			if !seen[t] {
 				seen[t] = true
 				texts = append(texts, t)
+			}
+		}
+		if strings.Contains(tn, "int") || strings.Contains(tn, "float") {
+			for _, t := range numberBoundaryTexts() {
+				if !seen[t] {
+					seen[t] = true
+					texts = append(texts, t)
+				}
 			}
 		}
 		// decode every text into a zero target and into each pre-filled target
